@@ -61,6 +61,7 @@ type txSpec struct {
 	SmallFrac float64 `json:"small_slot_frac,omitempty"`
 	AgingMs   int     `json:"aging_after_ms,omitempty"`
 	Tail      uint32  `json:"resume_verify_tail,omitempty"`
+	SlowHashMs int    `json:"receiver_hash_read_takes_ms,omitempty"` // slow disk under the receiver's verification hash
 	EnumFault   bool              `json:"enumerate_fault_position,omitempty"`
 }
 
@@ -82,6 +83,7 @@ type txDamage struct {
 }
 
 type epResult struct {
+	delayed            int
 	signalled          bool
 	sendErr, recvErr   error
 	sendRet, recvRet   bool
@@ -175,6 +177,14 @@ func runEpisode(cfg epCfg) (ep *epResult) {
 			s = verifsim.New(cfg.seed, sp.Strat)
 			s.FS = verifsim.NewFS()
 			s.FS.OnOp = trackOps
+			if sp.SlowHashMs > 0 {
+				s.FS.Delay = func(op *verifsim.FSOp) time.Duration {
+					if op.Node == "R" && strings.HasPrefix(op.Site, "hashFileChunk") {
+						return time.Duration(sp.SlowHashMs) * time.Millisecond
+					}
+					return 0
+				}
+			}
 			s.Crash = nil
 			if cfg.crash != nil {
 				c := *cfg.crash
@@ -503,6 +513,7 @@ func runEpisode(cfg epCfg) (ep *epResult) {
 			}
 			time.Sleep(time.Second)
 			ep.fsCounts = s.FS.Counts
+			ep.delayed = s.FS.Delayed
 		})
 	}()
 	verifsim.S = nil
@@ -1109,6 +1120,9 @@ func fillRes(res *verifsim.RunResult, ep *epResult) {
 		fsTotal += int64(n)
 	}
 	res.Counters["fs_ops"] += fsTotal
+	if ep.delayed > 0 {
+		res.Counters["slow_disk_operations"] += int64(ep.delayed)
+	}
 	res.Counters["frames_written"] += int64(len(ep.frames))
 	// reach probes: one file's chunks travelling on several data streams; chunk
 	// data delivered before the file's FileBegin was written/handled
